@@ -31,6 +31,8 @@ PROBE_VALUES = [
     ("list", "(a, b, c)"), ("list", "(1px 2px, 3px)"), ("list", "(0.5, 0.25)"), ("list", "[a, b]"), ("list", "(a b) (c, d)"),
     ("list", "list.slash(1, 0.5)"), ("list", "(red, #00f)"), ("list", "append((), 0.5, comma)"),
     ("string", '"a, b"'), ("string", "unquote(\"a,  b\")"), ("string", '"0.50"'),
+    ("calc", "calc(100% - 32px)"), ("calc", "calc(var(--a) - 0.5px)"), ("calc", "min(1px - 1%, 2em)"), ("calc", "clamp(1px, 50% - 2px, 3em)"),
+    ("calc", "calc(1px - (2% - 3em))"), ("calc", "calc(1px * 2 - 3% / 4)"),
     ("calc", "calc(0.5px + 1%)"), ("calc", "calc(1px * 0.5 + 2%)"), ("calc", "min(0.5px, 1%)"), ("calc", "clamp(0.1px, 1%, 0.9em)"),
     ("map-inspect", "inspect((a: 0.5, b: (c, d)))"), ("bool", "true"), ("null-inspect", "inspect(null)"),
     ("selector", 'selector-nest("a > b", "& + c")'), ("selector", 'selector-append(".a", ".b, .c")'),
@@ -338,9 +340,12 @@ def run(tier, seed):
                                         "syntax": c["options"].get("syntax")} for c in cs], "corpus")
     log(f"[C06] direct: failures={len(fails)}")
     unknown = [f for f in fails if not f.get("tags")]
-    if (not ck.proof["ok"] or ck.cov["model_disagreements"]) and not unknown and tier == "quick":
-        log("[C06] proof or correspondence broken: enlarging the search")
-        fails += compare_styles(ck, pool, probe_cases(ck.rng, 10 ** 6), "probe")
+    if (not ck.proof["ok"] or ck.cov["model_disagreements"] or getattr(ck, "changed", None)) and not unknown and tier == "quick":
+        log("[C06] proof or correspondence broken, or modelled sources changed: enlarging the search")
+        more = c05.gen_tie_cases(ck, 3000)
+        tie_both_styles(ck, pool, more)
+        fails += compare_styles(ck, pool, [{"key": "tree+:" + str(i), "src": c["src"], "syntax": "scss"}
+                                           for i, c in enumerate(more) if c.get("clean")], "gen-tree")
         fails += compare_styles(ck, pool, [{"key": "prog+:" + str(i), "src": cc.gen_program(ck.rng), "syntax": "scss"} for i in range(6000)], "gen-prog")
     reported = report(ck, pool, fails)
     if ck.cov["model_disagreements"] and not reported:
